@@ -271,13 +271,17 @@ def positions_and_reader_annotations(run, cases, results, seed, tier):
     scale, or none on the reader side... the converters are keyed by the WRITER's annotation): same value."""
     import copy
     rnd = random.Random(seed * 16127 + 3)
-    done = 0
+    per_kind = {}
     for i, (s, v, kind, exp) in enumerate(cases):
-        if done >= scale(tier, 120) or "bytes" not in results[i]:
+        if "bytes" in results[i]:
+            per_kind.setdefault(kind, []).append(i)
+    chosen = set()
+    quota = max(4, scale(tier, 160) // max(1, len(per_kind)))
+    for kind, idxs in sorted(per_kind.items()):
+        chosen.update(rnd.sample(idxs, min(len(idxs), quota)))     # every logical type gets its share
+    for i, (s, v, kind, exp) in enumerate(cases):
+        if i not in chosen:
             continue
-        if rnd.random() < 0.5:
-            continue
-        done += 1
         try:
             alone = fastavro.schemaless_reader(io.BytesIO(bytes.fromhex(results[i]["bytes"])), fastavro.parse_schema(dict(s)))
         except Exception:
